@@ -284,3 +284,24 @@ func Harness_C07_edit_valid() {
 	base := buf.Bytes()
 	checkParse(editOne(base))
 }
+
+// Harness_C07_long_line: a well-formed header whose stanza line is longer than
+// any internal read buffer (argument of 4080..4100 characters, i.e. on both
+// sides of bufio's default 4096 bytes) parses back to an equal header.
+func Harness_C07_long_line() {
+	n := 4080 + V.Int("extra", 0, 20)
+	arg := make([]byte, n)
+	for i := range arg {
+		arg[i] = 'a' + byte(i%26)
+	}
+	body := make([]byte, 10)
+	h := &Header{Recipients: []*Stanza{{Type: "t", Args: []string{string(arg)}, Body: body}}, MAC: make([]byte, 32)}
+	var buf bytes.Buffer
+	V.Assert(h.Marshal(&buf) == nil, "Marshal failed")
+	h2, _, err := Parse(bytes.NewReader(buf.Bytes()))
+	V.Reach("parsed")
+	V.Assert(err == nil, "a well-formed header with a long argument does not parse back")
+	if err == nil {
+		V.Assert(len(h2.Recipients) == 1 && stanzaEqual(h2.Recipients[0], h.Recipients[0]), "long-argument header parses back to a different header")
+	}
+}
